@@ -369,9 +369,13 @@ chunk* small_free_memory_list::find_chunk_impl(unsigned char* node, chunk_base* 
         else if ((c = from_chunk(last, node, node_size_)) != nullptr)
             return c;
 
+        // every chunk between first and last has been looked at
+        // (decided by position in the list: the proxy's own address says nothing)
+        if (first == last || first->next == last)
+            break;
         first = first->next;
         last  = last->prev;
-    } while (!greater(first, last));
+    } while (true);
     return nullptr;
 }
 
